@@ -568,7 +568,27 @@ def run(project: Project, rep, tier: str):
     check_filter(rep, "BN-FILTER", project, BN)
     graph_status = check_graph(rep, "BN-GRAPH", run, D)
     check_thresh_perfect(rep, run, D, graph_status)
-    check_bisect(rep, run, D)
+    # BN-SEARCH follows the search on fixed candidate lists with a feasibility oracle (whatever its shape); the site rule
+    # BN-BISECT reads the shapes it knows. A shape BN-BISECT does not know is not an error when BN-SEARCH decided the search.
+    from ..core.report import Report
+    from .search import check_search
+    max_n = 9 if tier == "thorough" else 6
+    pre = Report("C01-search")
+    st = check_search(project, pre, max_n)
+    if st != "unmodelled":
+        check_search(project, rep, max_n)
+    pre_b = Report("C01-bisect")
+    check_bisect(pre_b, run, D)
+    bisect_decided = not pre_b.errors or pre_b.refutations
+    if st == "ok" and not bisect_decided:
+        rep.discharged("BN-BISECT", fi, fi.node, "the search has a shape the site rule does not read; it was followed and decided by "
+                                                 "BN-SEARCH", nontrivial=False)
+        skip_bisect_floor = True
+    else:
+        check_bisect(rep, run, D)
+        skip_bisect_floor = False
+    if st == "unmodelled" and not bisect_decided:
+        check_search(project, rep, max_n)   # report why the semantic rule could not follow it either
     check_order(rep, run)
     check_empty(rep, project, BN)
     for ev in run.events("shape-error"):
@@ -579,7 +599,8 @@ def run(project: Project, rep, tier: str):
     rep.floor("BN-FILTER", 2)
     rep.floor("BN-THRESH", 2)
     rep.floor("BN-PERFECT", 1)
-    rep.floor("BN-BISECT", 4)
+    rep.floor("BN-BISECT", 1 if skip_bisect_floor else 4)
+    rep.floor("BN-SEARCH", 1 if st != "unmodelled" else 0)
     rep.floor("BN-ORDER", 1)
     rep.floor("BN-EMPTY", 2)
     for t in ("numpy.abs", "numpy.maximum", "numpy.fill_diagonal", "numpy.unique", "numpy.sort",
